@@ -240,6 +240,9 @@ class JetPool(Pool):
             return self.values[E][sd[2]][()] if tuple(c) == tuple(sd[1]) else 0
         if sd[0] == "prod":  # scalar a times b (user-supplied coefficient derivative times direction)
             return self.values[E][sd[1]][()] * self.values[E][sd[2]][c]
+        if sd[0] == "dprod":  # gradient of (a * b): a * grad_b[c] + b * grad_a[c]   (a, b scalars)
+            _, a, gb, b, ga = sd
+            return self.values[E][a][()] * self.values[E][gb][c] + self.values[E][b][()] * self.values[E][ga][c]
         raise ValueError(sd)
 
     def tlc_env_of_base(self, E):
